@@ -18,6 +18,8 @@ def _n(x):
         x = float(x)
         if x != x:
             return 'nan'
+        if x in (float('inf'), float('-inf')):
+            return 'inf' if x > 0 else '-inf'
         if x == int(x):
             return str(int(x))
         return repr(x)
